@@ -387,7 +387,7 @@ class Ctx:
             'wall_s': round(wall, 2),
             'violations': len(self.violations),
         }
-        if not self.replay:
+        if not self.replay and not os.environ.get('VERIF_NO_EVIDENCE'):
             os.makedirs(os.path.join(VERIF, 'evidence'), exist_ok=True)
             with open(os.path.join(VERIF, 'evidence', self.pid + '.json'), 'w') as f:
                 json.dump(ev, f, indent=1, default=_json_default)
